@@ -47,11 +47,9 @@ def regenerate():
                    env=C.GOENV, timeout=600)
     if rc != 0:
         return False, out
-    dst = os.path.join(C.COQ, "gen", "AccessTable.v")
-    with C.Lock("coq"):
-        os.makedirs(os.path.dirname(dst), exist_ok=True)
-        if not os.path.exists(dst) or not filecmp.cmp(tmp, dst, shallow=False):
-            shutil.copyfile(tmp, dst)
+    tmp2 = C.gen_tmp("AccessTable.v")
+    shutil.copyfile(tmp, tmp2)
+    C.install_gen("AccessTable.v", tmp2)     # atomically, only if changed; put back after a run on a scratch tree
     return True, out.strip()
 
 
